@@ -189,7 +189,7 @@ class PipelineCase(Case):
                                         lower=-100.0, upper=100.0, magnitudes=0.25)
         self.owner = {}
         for j in range(N):
-            if mask is None or mask[j]:
+            if (mask is None or mask[j]) and sampler_map[j] >= 0:    # any negative entry: no sampler, not perturbed
                 self.owner[j] = sampler_map[j]
         self.cols = {i: [j for j in range(N) if self.owner.get(j) == i] for i in range(len(methods))}
 
@@ -356,6 +356,8 @@ def build_cases(tier):
     add(PipelineCase, methods=("uniform", "uniform"), sampler_map=(0, 1, 0), N=3)
     add(PipelineCase, methods=("truncnorm", "sobol"), sampler_map=(1, 0, 1), N=3, mask=(True, True, False))
     add(PipelineCase, methods=("lhs", "uniform", "halton"), sampler_map=(2, 0, 1, 0), N=4, evals=3)
+    add(PipelineCase, methods=("lhs", "uniform"), sampler_map=(0, 0, 1, -2), N=4)     # a negative entry other than -1
+    add(PipelineCase, methods=("norm", "sobol"), sampler_map=(-1, 1, 0), N=3)
     # sampler indices in use need not be contiguous (a configured sampler nothing refers to)
     add(PipelineCase, methods=("uniform", "norm", "lhs"), sampler_map=(0, 2, 2), N=3)
     add(PipelineCase, methods=("sobol", "uniform", "norm"), sampler_map=(2, 2, 2, 2), N=4, mask=(True, False, True, True))
